@@ -30,6 +30,7 @@
 #include <xercesc/framework/XMLGrammarPool.hpp>
 #include <xercesc/framework/BinOutputStream.hpp>
 #include <xercesc/util/BinInputStream.hpp>
+#include <xercesc/util/VerifHooks.hpp>
 
 #include <cstdio>
 #include <assert.h>
@@ -46,6 +47,12 @@ static const XSerializeEngine::XSerializedObjectId_t fgNewClassTag    = 0xFFFFFF
 static const XSerializeEngine::XSerializedObjectId_t fgTemplateObjTag = 0xFFFFFFFE;  // indicating template object
 static const XSerializeEngine::XSerializedObjectId_t fgClassMask      = 0x80000000;  // indicates class tag
 static const XSerializeEngine::XSerializedObjectId_t fgMaxObjectCount = 0x3FFFFFFD;
+
+#ifdef XERCES_VERIF_HOOKS
+// verification hooks (H7): folding of values / byte runs into 31 bits for the trace
+static inline long long verifFold(unsigned long long v) { return (long long)(v % 2147483647ULL); }
+static inline long long verifHash(const XMLByte* p, XMLSize_t n) { unsigned long long h = 17; for (XMLSize_t i = 0; i < n; i++) h = (h * 31 + p[i]) % 2147483647ULL; return (long long)h; }
+#endif
 
 #define TEST_THROW_ARG1(condition, data, err_msg) \
 if (condition) \
@@ -161,11 +168,13 @@ void XSerializeEngine::write(XSerializable* const objectToWrite)
 	if (!objectToWrite)  // null pointer
 	{
 		*this << fgNullObjectTag;
+        VERIF_EV("XsObj", "d,k,n,p", 0LL, 0LL, 0LL, 0LL);
 	}
     else if (0 != (objIndex = lookupStorePool((void*) objectToWrite)))
 	{
         // writing an object reference tag
         *this << objIndex;
+        VERIF_EV("XsObj", "d,k,n,p", 0LL, 1LL, (long long)objIndex, (long long)(size_t)objectToWrite);
 	}
 	else
 	{
@@ -175,9 +184,11 @@ void XSerializeEngine::write(XSerializable* const objectToWrite)
 
 		// put the object into StorePool
         addStorePool((void*)objectToWrite);
+        VERIF_EVS("XsObj", (const char*)protoType->fClassName, "d,k,n,p", 0LL, 2LL, (long long)fObjectCount, (long long)(size_t)objectToWrite);
 
         // ask the object to serialize itself
 		objectToWrite->serialize(*this);
+        VERIF_EV("XsEnd", "d,p", 0LL, (long long)(size_t)objectToWrite);
 	}
 
 }
@@ -193,6 +204,7 @@ void XSerializeEngine::write(XProtoType* const protoType)
     {
         //protoType seen in the store pool
         *this << (fgClassMask | objIndex);
+        VERIF_EVS("XsCls", (const char*)protoType->fClassName, "d,k,n,p", 0LL, 1LL, (long long)objIndex, (long long)(size_t)protoType);
 	}
 	else
 	{
@@ -200,6 +212,7 @@ void XSerializeEngine::write(XProtoType* const protoType)
 		*this << fgNewClassTag;
 		protoType->store(*this);
         addStorePool((void*)protoType);
+        VERIF_EVS("XsCls", (const char*)protoType->fClassName, "d,k,n,p", 0LL, 2LL, (long long)fObjectCount, (long long)(size_t)protoType);
 	}
 
 }
@@ -220,6 +233,7 @@ void XSerializeEngine::write(const XMLByte* const toWrite
     ensureStoring();
     ensurePointer((void*)toWrite);
     ensureStoreBuffer();
+    VERIF_EV("XsBytes", "d,n,v,pos", 0LL, (long long)writeLen, verifHash(toWrite, writeLen), (long long)getBufCurAccumulated());
 
     if (writeLen == 0)
         return;
@@ -292,10 +306,12 @@ void XSerializeEngine::writeString(const XMLCh* const toWrite
         *this<<(unsigned long)strLen;
 
         write(toWrite, strLen);
+        VERIF_EV("XsStr", "d,n,b,w", 0LL, (long long)strLen, (long long)(toWriteBufLen ? bufferLen : 0), 2LL);
     }
     else
     {
         *this<<noDataFollowed;
+        VERIF_EV("XsStr", "d,n,b,w", 0LL, -1LL, 0LL, 2LL);
     }
 
 }
@@ -313,10 +329,12 @@ void XSerializeEngine::writeString(const XMLByte* const toWrite
         XMLSize_t strLen = XMLString::stringLen((char*)toWrite);
         *this<<(unsigned long)strLen;
         write(toWrite, strLen);
+        VERIF_EV("XsStr", "d,n,b,w", 0LL, (long long)strLen, (long long)(toWriteBufLen ? bufferLen : 0), 1LL);
     }
     else
     {
         *this<<noDataFollowed;
+        VERIF_EV("XsStr", "d,n,b,w", 0LL, -1LL, 0LL, 1LL);
     }
 
 }
@@ -339,6 +357,7 @@ XSerializable* XSerializeEngine::read(XProtoType* const protoType)
          * load pool, get it.
          */
         objRet = lookupLoadPool(objectTag);
+        VERIF_EV("XsObj", "d,k,n,p", 1LL, (objectTag ? 1LL : 0LL), (long long)objectTag, (long long)(size_t)objRet);
 	}
 	else
 	{
@@ -348,9 +367,11 @@ XSerializable* XSerializeEngine::read(XProtoType* const protoType)
 
         // put it into load pool
         addLoadPool(objRet);
+        VERIF_EVS("XsObj", (const char*)protoType->fClassName, "d,k,n,p", 1LL, 2LL, (long long)fObjectCount, (long long)(size_t)objRet);
 
         // de-serialize it
 		objRet->serialize(*this);
+        VERIF_EV("XsEnd", "d,p", 1LL, (long long)(size_t)objRet);
 
 	}
 
@@ -381,6 +402,7 @@ bool XSerializeEngine::read(XProtoType*            const    protoType
         XProtoType::load(*this, protoType->fClassName, getMemoryManager());
 
         addLoadPool((void*)protoType);
+        VERIF_EVS("XsCls", (const char*)protoType->fClassName, "d,k,n,p", 1LL, 2LL, (long long)fObjectCount, (long long)(size_t)protoType);
 	}
 	else
 	{
@@ -402,6 +424,7 @@ bool XSerializeEngine::read(XProtoType*            const    protoType
         }
 
         ensurePointer(lookupLoadPool(classIndex));
+        VERIF_EVS("XsCls", (const char*)protoType->fClassName, "d,k,n,p,q", 1LL, 1LL, (long long)classIndex, (long long)(size_t)protoType, (long long)(size_t)fLoadPool->elementAt(classIndex - 1));
    }
 
 	return true;
@@ -419,6 +442,7 @@ void XSerializeEngine::read(XMLByte* const toRead
     ensureLoading();
     ensurePointer(toRead);
     ensureLoadBuffer();
+    VERIF_EV("XsBytesB", "d,n,pos", 1LL, (long long)readLen, (long long)getBufCurAccumulated());
 
     if (readLen == 0)
         return;
@@ -432,6 +456,7 @@ void XSerializeEngine::read(XMLByte* const toRead
     {
         memcpy(toRead, fBufCur, readLen);
         fBufCur += readLen;
+        VERIF_EV("XsBytesE", "d,n,v,pos", 1LL, (long long)readLen, verifHash(toRead, readLen), (long long)getBufCurAccumulated());
         return;
     }
 
@@ -467,6 +492,7 @@ void XSerializeEngine::read(XMLByte* const toRead
         memcpy(tempRead, fBufCur, readRemain);
         fBufCur += readRemain;
     }
+    VERIF_EV("XsBytesE", "d,n,v,pos", 1LL, (long long)readLen, verifHash(toRead, readLen), (long long)getBufCurAccumulated());
 
 }
 
@@ -502,6 +528,7 @@ void XSerializeEngine::readString(XMLCh*&       toRead
         toRead = 0;
         bufferLen = 0;
         dataLen = 0;
+        VERIF_EV("XsStr", "d,n,b,w", 1LL, -1LL, 0LL, 2LL);
         return;
     }
 
@@ -518,6 +545,7 @@ void XSerializeEngine::readString(XMLCh*&       toRead
     toRead = (XMLCh*) getMemoryManager()->allocate(bufferLen * sizeof(XMLCh));
     read(toRead, dataLen);
     toRead[dataLen] = 0;
+    VERIF_EV("XsStr", "d,n,b,w", 1LL, (long long)dataLen, (long long)(toReadBufLen ? bufferLen : 0), 2LL);
 }
 
 void XSerializeEngine::readString(XMLByte*&     toRead
@@ -536,6 +564,7 @@ void XSerializeEngine::readString(XMLByte*&     toRead
         toRead = 0;
         bufferLen = 0;
         dataLen = 0;
+        VERIF_EV("XsStr", "d,n,b,w", 1LL, -1LL, 0LL, 1LL);
         return;
     }
 
@@ -552,6 +581,7 @@ void XSerializeEngine::readString(XMLByte*&     toRead
     toRead = (XMLByte*) getMemoryManager()->allocate(bufferLen * sizeof(XMLByte));
     read(toRead, dataLen);
     toRead[dataLen] = 0;
+    VERIF_EV("XsStr", "d,n,b,w", 1LL, (long long)dataLen, (long long)(toReadBufLen ? bufferLen : 0), 1LL);
 
 }
 
@@ -566,6 +596,7 @@ XSerializeEngine& XSerializeEngine::operator<<(XMLCh xch)
     alignBufCur(sizeof(XMLCh));
     *reinterpret_cast<XMLCh*>(fBufCur) = xch;
     fBufCur += sizeof(XMLCh);
+    VERIF_EV("XsPrim", "d,t,s,v,pos", 0LL, 1LL, (long long)sizeof(XMLCh), verifFold((unsigned long long)(long long)xch), (long long)(getBufCurAccumulated() - sizeof(XMLCh)));
     return *this;
 }
 
@@ -576,6 +607,7 @@ XSerializeEngine& XSerializeEngine::operator>>(XMLCh& xch)
     alignBufCur(sizeof(XMLCh));
     xch = *reinterpret_cast<XMLCh*>(fBufCur);
     fBufCur += sizeof(XMLCh);
+    VERIF_EV("XsPrim", "d,t,s,v,pos", 1LL, 1LL, (long long)sizeof(XMLCh), verifFold((unsigned long long)(long long)xch), (long long)(getBufCurAccumulated() - sizeof(XMLCh)));
     return *this;
 }
 
@@ -585,6 +617,7 @@ XSerializeEngine& XSerializeEngine::operator<<(XMLByte by)
 
     *(XMLByte*)fBufCur = by;
     fBufCur += sizeof(XMLByte);
+    VERIF_EV("XsPrim", "d,t,s,v,pos", 0LL, 2LL, (long long)sizeof(XMLByte), verifFold((unsigned long long)(long long)by), (long long)(getBufCurAccumulated() - sizeof(XMLByte)));
     return *this;
 }
 
@@ -594,6 +627,7 @@ XSerializeEngine& XSerializeEngine::operator>>(XMLByte& by)
 
     by = *(XMLByte*)fBufCur;
     fBufCur += sizeof(XMLByte);
+    VERIF_EV("XsPrim", "d,t,s,v,pos", 1LL, 2LL, (long long)sizeof(XMLByte), verifFold((unsigned long long)(long long)by), (long long)(getBufCurAccumulated() - sizeof(XMLByte)));
     return *this;
 }
 
@@ -603,6 +637,7 @@ XSerializeEngine& XSerializeEngine::operator<<(bool b)
 
     *(bool*)fBufCur = b;
     fBufCur += sizeof(bool);
+    VERIF_EV("XsPrim", "d,t,s,v,pos", 0LL, 3LL, (long long)sizeof(bool), verifFold((unsigned long long)(long long)b), (long long)(getBufCurAccumulated() - sizeof(bool)));
     return *this;
 }
 
@@ -612,6 +647,7 @@ XSerializeEngine& XSerializeEngine::operator>>(bool& b)
 
     b = *(bool*)fBufCur;
     fBufCur += sizeof(bool);
+    VERIF_EV("XsPrim", "d,t,s,v,pos", 1LL, 3LL, (long long)sizeof(bool), verifFold((unsigned long long)(long long)b), (long long)(getBufCurAccumulated() - sizeof(bool)));
     return *this;
 }
 
@@ -621,6 +657,7 @@ void XSerializeEngine::writeSize (XMLSize_t t)
 
   memcpy(fBufCur, &t, sizeof(t));
   fBufCur += sizeof(t);
+  VERIF_EV("XsPrim", "d,t,s,v,pos", 0LL, 12LL, (long long)sizeof(t), verifFold((unsigned long long)t), (long long)(getBufCurAccumulated() - sizeof(t)));
 }
 
 void XSerializeEngine::writeInt64 (XMLInt64 t)
@@ -629,6 +666,7 @@ void XSerializeEngine::writeInt64 (XMLInt64 t)
 
   memcpy(fBufCur, &t, sizeof(t));
   fBufCur += sizeof(t);
+  VERIF_EV("XsPrim", "d,t,s,v,pos", 0LL, 13LL, (long long)sizeof(t), verifFold((unsigned long long)t), (long long)(getBufCurAccumulated() - sizeof(t)));
 }
 
 void XSerializeEngine::writeUInt64 (XMLUInt64 t)
@@ -637,6 +675,7 @@ void XSerializeEngine::writeUInt64 (XMLUInt64 t)
 
   memcpy(fBufCur, &t, sizeof(t));
   fBufCur += sizeof(t);
+  VERIF_EV("XsPrim", "d,t,s,v,pos", 0LL, 14LL, (long long)sizeof(t), verifFold((unsigned long long)t), (long long)(getBufCurAccumulated() - sizeof(t)));
 }
 
 void XSerializeEngine::readSize (XMLSize_t& t)
@@ -645,6 +684,7 @@ void XSerializeEngine::readSize (XMLSize_t& t)
 
   memcpy(&t, fBufCur, sizeof(t));
   fBufCur += sizeof(t);
+  VERIF_EV("XsPrim", "d,t,s,v,pos", 1LL, 12LL, (long long)sizeof(t), verifFold((unsigned long long)t), (long long)(getBufCurAccumulated() - sizeof(t)));
 }
 
 void XSerializeEngine::readInt64 (XMLInt64& t)
@@ -653,6 +693,7 @@ void XSerializeEngine::readInt64 (XMLInt64& t)
 
   memcpy(&t, fBufCur, sizeof(t));
   fBufCur += sizeof(t);
+  VERIF_EV("XsPrim", "d,t,s,v,pos", 1LL, 13LL, (long long)sizeof(t), verifFold((unsigned long long)t), (long long)(getBufCurAccumulated() - sizeof(t)));
 }
 
 void XSerializeEngine::readUInt64 (XMLUInt64& t)
@@ -661,6 +702,7 @@ void XSerializeEngine::readUInt64 (XMLUInt64& t)
 
   memcpy(&t, fBufCur, sizeof(t));
   fBufCur += sizeof(t);
+  VERIF_EV("XsPrim", "d,t,s,v,pos", 1LL, 14LL, (long long)sizeof(t), verifFold((unsigned long long)t), (long long)(getBufCurAccumulated() - sizeof(t)));
 }
 
 XSerializeEngine& XSerializeEngine::operator<<(char ch)
@@ -680,6 +722,7 @@ XSerializeEngine& XSerializeEngine::operator<<(short sh)
     alignBufCur(sizeof(short));
     *reinterpret_cast<short*>(fBufCur) = sh;
     fBufCur += sizeof(short);
+    VERIF_EV("XsPrim", "d,t,s,v,pos", 0LL, 5LL, (long long)sizeof(short), verifFold((unsigned long long)(long long)sh), (long long)(getBufCurAccumulated() - sizeof(short)));
     return *this;
 }
 
@@ -690,6 +733,7 @@ XSerializeEngine& XSerializeEngine::operator>>(short& sh)
     alignBufCur(sizeof(short));
     sh = *reinterpret_cast<short*>(fBufCur);
     fBufCur += sizeof(short);
+    VERIF_EV("XsPrim", "d,t,s,v,pos", 1LL, 5LL, (long long)sizeof(short), verifFold((unsigned long long)(long long)sh), (long long)(getBufCurAccumulated() - sizeof(short)));
     return *this;
 }
 
@@ -700,6 +744,7 @@ XSerializeEngine& XSerializeEngine::operator<<(int i)
     alignBufCur(sizeof(int));
     *reinterpret_cast<int*>(fBufCur) = i;
     fBufCur += sizeof(int);
+    VERIF_EV("XsPrim", "d,t,s,v,pos", 0LL, 6LL, (long long)sizeof(int), verifFold((unsigned long long)(long long)i), (long long)(getBufCurAccumulated() - sizeof(int)));
     return *this;
 }
 
@@ -710,6 +755,7 @@ XSerializeEngine& XSerializeEngine::operator>>(int& i)
     alignBufCur(sizeof(int));
     i = *reinterpret_cast<int*>(fBufCur);
     fBufCur += sizeof(int);
+    VERIF_EV("XsPrim", "d,t,s,v,pos", 1LL, 6LL, (long long)sizeof(int), verifFold((unsigned long long)(long long)i), (long long)(getBufCurAccumulated() - sizeof(int)));
     return *this;
 }
 
@@ -721,6 +767,7 @@ XSerializeEngine& XSerializeEngine::operator<<(unsigned int ui)
     alignBufCur(sizeof(unsigned int));
     *reinterpret_cast<unsigned int*>(fBufCur) = ui;
     fBufCur += sizeof(unsigned int);
+    VERIF_EV("XsPrim", "d,t,s,v,pos", 0LL, 7LL, (long long)sizeof(unsigned int), verifFold((unsigned long long)(long long)ui), (long long)(getBufCurAccumulated() - sizeof(unsigned int)));
     return *this;
 }
 
@@ -732,6 +779,7 @@ XSerializeEngine& XSerializeEngine::operator>>(unsigned int& ui)
     alignBufCur(sizeof(unsigned int));
     ui = *reinterpret_cast<unsigned int*>(fBufCur);
     fBufCur += sizeof(unsigned int);
+    VERIF_EV("XsPrim", "d,t,s,v,pos", 1LL, 7LL, (long long)sizeof(unsigned int), verifFold((unsigned long long)(long long)ui), (long long)(getBufCurAccumulated() - sizeof(unsigned int)));
     return *this;
 }
 
@@ -742,6 +790,7 @@ XSerializeEngine& XSerializeEngine::operator<<(long l)
     alignBufCur(sizeof(long));
     *reinterpret_cast<long*>(fBufCur) = l;
     fBufCur += sizeof(long);
+    VERIF_EV("XsPrim", "d,t,s,v,pos", 0LL, 8LL, (long long)sizeof(long), verifFold((unsigned long long)(long long)l), (long long)(getBufCurAccumulated() - sizeof(long)));
     return *this;
 }
 
@@ -752,6 +801,7 @@ XSerializeEngine& XSerializeEngine::operator>>(long& l)
     alignBufCur(sizeof(long));
     l = *reinterpret_cast<long*>(fBufCur);
     fBufCur += sizeof(long);
+    VERIF_EV("XsPrim", "d,t,s,v,pos", 1LL, 8LL, (long long)sizeof(long), verifFold((unsigned long long)(long long)l), (long long)(getBufCurAccumulated() - sizeof(long)));
     return *this;
 }
 
@@ -762,6 +812,7 @@ XSerializeEngine& XSerializeEngine::operator<<(unsigned long ul)
     alignBufCur(sizeof(unsigned long));
     *reinterpret_cast<unsigned long*>(fBufCur) = ul;
     fBufCur += sizeof(unsigned long);
+    VERIF_EV("XsPrim", "d,t,s,v,pos", 0LL, 9LL, (long long)sizeof(unsigned long), verifFold((unsigned long long)(long long)ul), (long long)(getBufCurAccumulated() - sizeof(unsigned long)));
     return *this;
 }
 
@@ -772,6 +823,7 @@ XSerializeEngine& XSerializeEngine::operator>>(unsigned long& ul)
     alignBufCur(sizeof(unsigned long));
     ul = *reinterpret_cast<unsigned long*>(fBufCur);
     fBufCur += sizeof(unsigned long);
+    VERIF_EV("XsPrim", "d,t,s,v,pos", 1LL, 9LL, (long long)sizeof(unsigned long), verifFold((unsigned long long)(long long)ul), (long long)(getBufCurAccumulated() - sizeof(unsigned long)));
     return *this;
 }
 
@@ -782,6 +834,7 @@ XSerializeEngine& XSerializeEngine::operator<<(float f)
     alignBufCur(sizeof(float));
     *reinterpret_cast<float*>(fBufCur) = *reinterpret_cast<float*>(&f);
     fBufCur += sizeof(float);
+    VERIF_EV("XsPrim", "d,t,s,v,pos", 0LL, 10LL, (long long)sizeof(float), verifFold((unsigned long long)*reinterpret_cast<unsigned int*>(&f)), (long long)(getBufCurAccumulated() - sizeof(float)));
     return *this;
 }
 
@@ -792,6 +845,7 @@ XSerializeEngine& XSerializeEngine::operator>>(float& f)
     alignBufCur(sizeof(float));
     *reinterpret_cast<float*>(&f) = *reinterpret_cast<float*>(fBufCur);
     fBufCur += sizeof(float);
+    VERIF_EV("XsPrim", "d,t,s,v,pos", 1LL, 10LL, (long long)sizeof(float), verifFold((unsigned long long)*reinterpret_cast<unsigned int*>(&f)), (long long)(getBufCurAccumulated() - sizeof(float)));
     return *this;
 }
 
@@ -802,6 +856,7 @@ XSerializeEngine& XSerializeEngine::operator<<(double d)
     alignBufCur(sizeof(double));
     *reinterpret_cast<double*>(fBufCur) = *reinterpret_cast<double*>(&d);
     fBufCur += sizeof(double);
+    VERIF_EV("XsPrim", "d,t,s,v,pos", 0LL, 11LL, (long long)sizeof(double), verifFold((unsigned long long)*reinterpret_cast<unsigned long long*>(&d)), (long long)(getBufCurAccumulated() - sizeof(double)));
     return *this;
 }
 
@@ -812,6 +867,7 @@ XSerializeEngine& XSerializeEngine::operator>>(double& d)
     alignBufCur(sizeof(double));
     *reinterpret_cast<double*>(&d) = *reinterpret_cast<double*>(fBufCur);
     fBufCur += sizeof(double);
+    VERIF_EV("XsPrim", "d,t,s,v,pos", 1LL, 11LL, (long long)sizeof(double), verifFold((unsigned long long)*reinterpret_cast<unsigned long long*>(&d)), (long long)(getBufCurAccumulated() - sizeof(double)));
     return *this;
 }
 
@@ -939,6 +995,7 @@ void XSerializeEngine::fillBuffer()
     ensureLoadBuffer();
 
     fBufCount++;
+    VERIF_EV("XsBuf", "d,blk", 1LL, (long long)fBufCount);
 }
 
 /***
@@ -959,6 +1016,7 @@ void XSerializeEngine::flushBuffer()
     ensureStoreBuffer();
 
     fBufCount++;
+    VERIF_EV("XsBuf", "d,blk", 0LL, (long long)fBufCount);
 }
 
 inline void XSerializeEngine::checkAndFlushBuffer(XMLSize_t bytesNeedToWrite)
@@ -1053,11 +1111,13 @@ bool XSerializeEngine::needToStoreObject(void* const  templateObjectToWrite)
 	if (!templateObjectToWrite)
 	{
 		*this << fgNullObjectTag; // null pointer
+        VERIF_EV("XsTpl", "d,k,n,p", 0LL, 0LL, 0LL, 0LL);
         return false;
 	}
     else if (0 != (objIndex = lookupStorePool(templateObjectToWrite)))
 	{
         *this << objIndex;         // write an object reference tag
+        VERIF_EV("XsTpl", "d,k,n,p", 0LL, 1LL, (long long)objIndex, (long long)(size_t)templateObjectToWrite);
         return false;
 	}
 	else
@@ -1065,6 +1125,7 @@ bool XSerializeEngine::needToStoreObject(void* const  templateObjectToWrite)
         *this << fgTemplateObjTag;            // write fgTemplateObjTag to denote that actual
                                               // template object follows
         addStorePool(templateObjectToWrite); // put the address into StorePool
+        VERIF_EV("XsTpl", "d,k,n,p", 0LL, 2LL, (long long)fObjectCount, (long long)(size_t)templateObjectToWrite);
         return true;
 	}
 
@@ -1080,6 +1141,7 @@ bool XSerializeEngine::needToLoadObject(void**  templateObjectToRead)
 
 	if (obTag == fgTemplateObjTag)
 	{
+        VERIF_EV("XsTpl", "d,k,n,p", 1LL, 2LL, (long long)fObjectCount + 1, 0LL);
         /***
          * what follows fgTemplateObjTag is the actual template object
          * We need the client application to create a template object
@@ -1094,6 +1156,7 @@ bool XSerializeEngine::needToLoadObject(void**  templateObjectToRead)
          * We hava a reference to an existing template object, get it.
          */
         *templateObjectToRead = lookupLoadPool(obTag);
+        VERIF_EV("XsTpl", "d,k,n,p", 1LL, (obTag ? 1LL : 0LL), (long long)obTag, (long long)(size_t)*templateObjectToRead);
         return false;
    }
 
@@ -1103,6 +1166,7 @@ void XSerializeEngine::registerObject(void*  const templateObjectToRegister)
 {
     ensureLoading();
     addLoadPool(templateObjectToRegister);
+    VERIF_EV("XsReg", "d,n,p", 1LL, (long long)fObjectCount, (long long)(size_t)templateObjectToRegister);
 }
 
 XMLGrammarPool* XSerializeEngine::getGrammarPool() const
